@@ -144,6 +144,13 @@ def gen_history(seed, i, valid, tier):
             alt = rng.choice([["--ctx", "crate::Other"], ["--derives", "Debug,Clone"], ["--derives", "Debug,Clone,PartialEq"], ["--derives", "Debug,Clone", "--ctx", "crate::Ctx"], []])
             if alt != settings_of(cfg):
                 ops.append(["run2", rng.below(len(slots)), alt])
+    if len(slots) >= 2 and rng.coin(150):
+        # two grammars that are symbolic links to ONE shared file: compiled, then the shared file is edited through one of them
+        xs = rng.sample(list(range(len(slots))), 2)
+        ops.append(["edit", xs[0], "shared", rng.below(len(valid)), "now"])
+        ops.append(["edit", xs[1], "shared", rng.below(len(valid)), "now"])
+        ops.append(["run"])
+        ops.append(["edit", xs[rng.below(2)], "shared", rng.below(len(valid)), rng.choice(["now", "old"])])
     if len(slots) >= 2 and rng.coin(250):
         # a failed run in the middle that got part of the way (one grammar changed and valid, another one broken), after
         # which the change is taken back and the broken grammar repaired: whatever the failed run left behind must not
